@@ -383,7 +383,7 @@ FN('stop_on_chunk_boundary', props=['C07', 'C09'],
    ensures=[('C09.wf_preserved', 'final(self).inner.wf_received() && old(self).inner.same_facts(&final(self).inner) && final(self).inner.bstate().stop_on_chunk_boundary == enabled && final(self).inner.bstate().reader == old(self).inner.bstate().reader')])
 FN('is_on_chunk_boundary', props=['C07', 'C01'], ret='r',
    requires=[('C09.wf', 'self.inner.wf_received()')],
-   ensures=[('aux.Flow.is_on_chunk_boundary', 'r == (self.inner.bstate().reader->Some_0 is Chunked && self.inner.bstate().reader->Some_0->Chunked_0 is Size)')])
+   ensures=[('aux.Flow.is_on_chunk_boundary', 'self.inner.bstate().reader->Some_0 is Chunked ==> r == (self.inner.bstate().reader->Some_0->Chunked_0 is Size)')])
 FN('body_mode', props=['C06', 'C08'], ret='r',
    requires=[('C09.wf', 'self.inner.wf_received()')],
    ensures=[('C06.body_mode', '''match self.inner.bstate().reader->Some_0 { BodyReader::NoBody => r == BodyMode::NoBody, BodyReader::LengthDelimited(v) => r == BodyMode::LengthDelimited(v),
